@@ -2,6 +2,8 @@ package checks
 
 import (
 	"crypto/x509"
+	"crypto/x509/pkix"
+	"encoding/asn1"
 	"errors"
 	"fmt"
 	"hash/fnv"
@@ -80,6 +82,30 @@ func c12Worlds() []c12World {
 			p.Chain = world.PEM(leaf, T.Inter, T.Root)
 			raw, _ := p.Bytes()
 			add("honest/sgx-elements="+strings.Join(ord, ","), w, raw)
+		}
+	}
+	{ // the leaf carries further private, non-critical extensions whose content is SGX-shaped and names ANOTHER
+		// FMSPC, after / before / around the SGX extension, under object identifiers next to the SGX one
+		w := world.Honest("T")
+		other := w.Plat
+		other.FMSPC = []byte{0x5a, 0x11, 0x22, 0x33, 0x44, 0x55}
+		decoyVal := world.SGXExtension(other)
+		sgx := pkix.Extension{Id: world.OidSGX, Value: world.SGXExtension(w.Plat)}
+		oid := func(arcs ...int) asn1.ObjectIdentifier { return asn1.ObjectIdentifier(arcs) }
+		base := []int{1, 2, 840, 113741, 1, 13}
+		oids := map[string]asn1.ObjectIdentifier{"sibling": oid(append(append([]int{}, base...), 2)...), "child": oid(append(append([]int{}, base...), 1, 1)...),
+			"parent": oid(base...), "sibling-10": oid(append(append([]int{}, base...), 10)...)}
+		for _, on := range []string{"sibling", "child", "parent", "sibling-10"} {
+			d := pkix.Extension{Id: oids[on], Value: decoyVal}
+			for pn, exts := range map[string][]pkix.Extension{"after": {sgx, d}, "before": {d, sgx}, "after-empty": {sgx, {Id: oids[on], Value: []byte{}}}} {
+				// (the library insists on six extensions in all, as Intel's certificates have: the further one takes the
+				// place of the CRL distribution point)
+				leaf := world.MakeCert(world.CertSpec{CN: world.CNLeaf, Key: T.LeafKey, NoSGXExt: true, NoCRLDP: true, ExtraExts: exts}, T.Inter, T.InterKey)
+				p := w.Parts.Clone()
+				p.Chain = world.PEM(leaf, T.Inter, T.Root)
+				raw, _ := p.Bytes()
+				add("honest/sgx-elements+decoy-extension="+on+"-"+pn, w, raw)
+			}
 		}
 	}
 	{ // processor CA as issuer of the leaf (the library only accepts the platform CA name; the CRL request must still name "processor")
